@@ -1,23 +1,3 @@
-(* GENERATED by tools/translate_fastpath.py from /repo's source on every run of bin/check C08. *)
+(* translator refused *)
 From AV Require Import Base FastPath.
-
-Definition row_shape_gen (row : nat) : option (list atom) :=
-  match row with
-  | 3 => Some [Ck]
-  | 4 => Some [Ck]
-  | 5 => Some [CkIf; Effect; ShieldY]
-  | 6 => Some [CkIf; Effect; ShieldY]
-  | 7 => Some [CkIf; Effect; ShieldY]
-  | 8 => Some [CkIf; Effect; ShieldY]
-  | 9 => Some [CkIf]
-  | 10 => Some [Ck; Effect]
-  | 12 => Some [Ck; Effect]
-  | 14 => Some [Ck]
-  | 15 => Some [Ck]
-  | 17 => Some [Ck]
-  | 18 => Some [CkIf; Effect; ShieldY]
-  | _ => None
-  end.
-
-Definition translated_rows : list nat := [3; 4; 5; 6; 7; 8; 9; 10; 12; 14; 15; 17; 18].
-
+Definition refused : False := "translate_fastpath REFUSED: row 12 MemoryObjectReceiveStream.receive: unsupported branch `if self._state.buffer` inside a fast path".
